@@ -228,3 +228,16 @@ M('c07-boundary-100000', ['C07'], FT, "    if taxable_amount < 100000:", "    if
 M('c07-column-shift', ['C07'], FT, "TAX_WORKSHEET_VALUES[filing_status_index-2]", "TAX_WORKSHEET_VALUES[filing_status_index-1]", 'D', 'worksheet column off by one', accept_error=True)
 M('c07-wrong-argument', ['C07'], Y23 + 'f1040.py', "return figure_tax(v['15'], i['filing_status'])", "return figure_tax(v['15'], i['state'])", 'D4', 'figure_tax called with another input than the filing status')
 M('c07-negated-test', ['C07'], FT, "    if taxable_amount < 100000:", "    if not taxable_amount >= 100000:", None, 'same test, spelled differently', 'silent')
+
+# ------------------------------------------------------------------ C09
+M('c09-gate-arm-deleted', ['C09'], Y23 + 'f1040.py', "FloatField('1e', lambda s, i, v: s.not_implemented() if i['dependent_care'] else None),", "FloatField('1e', lambda s, i, v: None),", 'R9', 'a gate line no longer looks at its declaration', accept_error=False)
+M('c09-gate-inverted', ['C09'], Y23 + 'f1040.py', "FloatField('1f', lambda s, i, v: s.not_implemented() if i['adoption_benefits'] else None),", "FloatField('1f', lambda s, i, v: s.not_implemented() if not i['adoption_benefits'] else None),", 'R9.1', 'gate condition inverted')
+M('c09-gate-returns-zero', ['C09'], Y23 + 'f1040.py', "FloatField('6a', lambda s, i, v: s.not_implemented() if i['social_security_benefits'] else None),", "FloatField('6a', lambda s, i, v: 0.0 if i['social_security_benefits'] else None),", None, 'one of three required readers proceeds, the other two still refuse: the solve still fails', 'silent')
+M('c09-disjunct-dropped', ['C09'], Y23 + 'f1040.py', "if i['uncommon_tax'] or i['need_8615'] or i['schedule_d_required']:", "if i['uncommon_tax'] or i['schedule_d_required']:", 'R9.1', 'a disjunct dropped from a combined gate')
+M('c09-silent-reader-elsewhere', ['C09'], Y23 + 'f1040_s1.py', "FloatField('3', lambda s, i, v: s.not_implemented() if i['business_income'] else None),", "FloatField('3', lambda s, i, v: s.not_implemented() if i['business_income'] else None),\n            BooleanField('has_business', lambda s, i, v: i['business_income']),", 'R9.2',
+  'a new optional line reads a gate declaration and proceeds', accept_error=False)
+M('c09-limit-dropped', ['C09'], Y23 + 'f1040.py', "                if v['11'] > income_limit:\n                    self.not_implemented()\n", "", 'R9.3', 'the QBI income limit no longer refuses')
+M('c09-limit-inverted', ['C09'], Y23 + 'f1040_sb.py', "if i['1040.number_1099-int'] > NUM_FIELDS or i['1040.number_1099-div'] > NUM_FIELDS:", "if i['1040.number_1099-int'] < NUM_FIELDS or i['1040.number_1099-div'] > NUM_FIELDS:", 'R9.3', 'the payer-count limit is inverted')
+M('c09-not-implemented-returns', ['C09'], FI, "        raise FieldNotImplemented(self.name(), detailed=detailed)", "        return None", 'R9', 'not_implemented() returns instead of raising')
+M('c09-guards-merged-into-helper', ['C09'], Y23 + 'f1040.py', "FloatField('1e', lambda s, i, v: s.not_implemented() if i['dependent_care'] else None),", "FloatField('1e', lambda s, i, v: refuse_if(s, i['dependent_care'])),", None, 'gate guard moved into a helper closure', 'silent',
+  more=[(Y23 + 'f1040.py', "        def line_19(self, i, v):\n", "        def refuse_if(self, cond):\n            if cond:\n                self.not_implemented()\n            return None\n\n        def line_19(self, i, v):\n")])
